@@ -573,6 +573,77 @@ macro_rules! ecdsa_equal_terms_sig {
     }};
 }
 
+/// The adversary against the baby-step / giant-step search of P-256 truncated verification: the verifier
+/// tabulates the x coordinates of U_i = (s0 + i*2^(k+n))*R, keyed by their low bits, and looks every
+/// V_j = h*G + r*Q - j*2^n*R up in that table. Choosing R and the key Q so that U_i = T1 and V_j = T2 for two
+/// *different* points whose x coordinates agree in their low 64 bits (both zero) forces a key collision that is
+/// not a match, at chosen positions (i, j) - including the first table entry. Everything is computed with the
+/// library's public arithmetic, as an attacker would. Returns (uncompressed key, 64-byte truncated signature, hash).
+fn p256_trunc_bucket_collision(rm: usize, i: u64, j: u64, tstart: u64, hv: &[u8; 32], s0seed: &[u8]) -> Option<(Vec<u8>, Vec<u8>)> {
+    use crrl::p256::{Point, Scalar};
+    let nb = 256 - rm;
+    let m = 255 - nb;
+    let k = (m + 1) >> 1;
+    let i = i.min(1u64 << (m - k));
+    let j = j.min(1u64 << k);
+    let find = |mut t: u64| -> (Point, u64) {
+        loop {
+            let mut enc = [0u8; 33];
+            enc[0] = 0x02;
+            // x big-endian in enc[1..33]; its low 8 bytes stay zero
+            enc[17..25].copy_from_slice(&t.to_be_bytes());
+            if let Some(p) = Point::decode(&enc) {
+                return (p, t);
+            }
+            t = t.wrapping_add(1);
+        }
+    };
+    let (t1p, t1) = find(tstart | 1);
+    let (t2p, _) = find(t1.wrapping_add(1));
+    let pow2 = |e: usize| -> Scalar {
+        let mut b = [0u8; 33];
+        b[e >> 3] = 1u8 << (e & 7);
+        Scalar::decode_reduce(&b)
+    };
+    let mut s0_le = [0u8; 32];
+    for z in 0..(nb >> 3) {
+        s0_le[z] = s0seed[z % s0seed.len().max(1)] | 1;
+    }
+    let s0 = Scalar::decode_reduce(&s0_le);
+    let e = s0 + Scalar::from_u64(i) * pow2(k + nb);
+    if e.iszero() != 0 {
+        return None;
+    }
+    let r_pt = t1p * (Scalar::ONE / e);
+    let mut r_be = [0u8; 32];
+    r_be.copy_from_slice(&r_pt.encode_compressed()[1..33]);
+    let mut r_le = r_be;
+    r_le.reverse();
+    let r = Scalar::decode(&r_le)?;
+    if r.iszero() != 0 {
+        return None;
+    }
+    let mut renc = [0u8; 33];
+    renc[0] = 0x02;
+    renc[1..].copy_from_slice(&r_be);
+    let rd = Point::decode(&renc)?;
+    let mut hb = *hv;
+    hb.reverse();
+    let h = Scalar::decode_reduce(&hb);
+    let u = rd.xdouble(nb as u32);
+    let q = (t2p + u * Scalar::from_u64(j) - Point::mulgen(&h)) * (Scalar::ONE / r);
+    if q.isneutral() != 0 {
+        return None;
+    }
+    let mut sig = vec![0u8; 64];
+    sig[..32].copy_from_slice(&r_be);
+    sig[32..].copy_from_slice(&s0_le);
+    for z in (nb >> 3)..32 {
+        sig[32 + z] = 0xC3;
+    }
+    Some((q.encode_uncompressed().to_vec(), sig))
+}
+
 fn ex_p256(n: &mut Net, out: &mut RunOut, tier: Tier) {
     use crrl::p256::{PrivateKey, PublicKey};
     let seed = { let l = 16 + n.t.usize(40); n.rng.bytes(l) };
@@ -614,6 +685,28 @@ fn ex_p256(n: &mut Net, out: &mut RunOut, tier: Tier) {
         out.ev(format_args!(" verify_trunc rm={} -> {:?}", rm, r.map(|x| x.map(|s| hex(&s)))));
         yesno(out, "p256trunc", matches!(r, Some(Some(_))));
         out.probe("probe.exchange.truncated_verification");
+    }
+    if n.t.chance(1, 10) {
+        // table-collision adversary of the truncated verification (see p256_trunc_bucket_collision)
+        let rm = rm_bits(n.t, tier);
+        let (i, j) = match n.t.usize(4) {
+            0 => (0u64, 0u64),
+            1 => (0, n.t.choose(300)),
+            2 => (n.t.choose(300), 0),
+            _ => (n.t.choose(1 << 16), n.t.choose(1 << 16)),
+        };
+        let mut h32 = [0u8; 32];
+        let hb = n.rng.bytes(32);
+        h32.copy_from_slice(&hb);
+        let seed = n.rng.bytes(8);
+        let ts = n.rng.u64();
+        if let Some((qk, ts_sig)) = p256_trunc_bucket_collision(rm, i, j, ts, &h32, &seed) {
+            out.probe("probe.exchange.p256_trunc_table_collision_crafted");
+            if let Some(Some(pkx)) = g!(out, "call.p256.PublicKey_decode", hex(&qk), PublicKey::decode(&qk)) {
+                let r = g!(out, "call.p256.verify_trunc_hash", format!("rm={} {} {} key {}", rm, hex(&ts_sig), hex(&h32), hex(&qk)), pkx.verify_trunc_hash(&ts_sig, rm, &h32));
+                out.ev(format_args!(" table-collision key/signature rm={} i={} j={} -> {:?}", rm, i, j, r.map(|x| x.map(|s| hex(&s)))));
+            }
+        }
     }
     if n.t.chance(1, 8) {
         let sb = n.rng.bytes(40);
